@@ -1008,7 +1008,9 @@ CompressData(rfbClientPtr cl,
         return TRUE;
     }
 
-    if (zlibLevel == 0)
+    /* TightPng has no "no zlib" control value (0x0A means PNG there): its basic rectangles
+       must always carry a real zlib stream, level 0 = stored blocks */
+    if (zlibLevel == 0 && cl->tightEncoding != rfbEncodingTightPng)
         return rfbSendCompressedDataTight(cl, cl->beforeEncBuf, dataLen);
 
     pz = &cl->zsStruct[streamId];
